@@ -182,6 +182,19 @@ CLAIMED = {
        "reservoir, SDS / PAF24 final block.",
   technique="Coq proof (prefix invariant of block writers by induction) + crash-image oracle at every update point",
   design_ref="DESIGN.md section 5 C11"),
+ "C03": dict(
+  partial=True,
+  text="PARTIAL. Theorems (Coq): for every history of header reads / seeks with sizes and positions taken from untrusted bytes and ANY I/O outcome the header cache "
+       "keeps 0 <= indx <= len, 0 <= end <= len <= 100 KiB and touches the cache only inside its allocation (HeaderCache.v, induction over histories); a handle is "
+       "returned only if validate_sfinfo accepts, and then samplerate >= 1, frames >= 0, 1 <= channels <= 1024, format fields non-zero, sections >= 1 (OpenGate.v over "
+       "Gen_Gate.v, which is translated from the source on every run; proof through agree_everywhere); a read touches exactly the caller's region (Api.v). "
+       "Ties: K correspondence for header_read / header_seek / psf_bump_header_allocation under injected short transfers and for validate_sfinfo. "
+       "Search/support (not proof): structure-aware mutation of library-written files of every format and hand-built chunk soups, opened and exercised through every "
+       "read type, seeks, commands, strings, chunk iteration under ASan/UBSan/LSan with guard-banded buffers and a time budget.",
+  note="The memory safety of the ~25 format parsers themselves and the wall-clock bound are NOT theorems: they are only exercised by the mutation runs. "
+       "Trusted: Coq kernel, translator/gate2gallina.py, hand-written HeaderCache.v (K tie), extraction, sfdrive.",
+  technique="Coq proof (invariant by induction over header-cache histories; translated open gate) + K correspondence; sanitizer mutation runs as search support",
+  design_ref="DESIGN.md section 5 C03"),
  "C14": dict(
   text="Theorems (Coq) over FileIO.v, the route switch of psf_fseek / psf_fread / psf_ftell / psf_get_filelen / psf_fclose: for EVERY history of seeks (SET/CUR), "
        "reads and tells that stay inside the sound file the descriptor route at fileoffset |pre| on pre ++ F ++ post returns exactly what the virtual route "
